@@ -388,6 +388,20 @@ func alphabet(seed mState) []op {
 	add(true, opRenameObject("absent", pkg+".Nope", "Renamed"))
 	add(false, opRenameObject("otherpkg", otherPkg+"."+rRef.Name, "Renamed"))
 	add(false, opRenameObject("exact-same-name", sref, S.Name))
+	// the new name differs from the old one only in letter case (the classic
+	// use on definitions spelled in lower case), with `from` spelled exactly,
+	// in the other case, and towards a third spelling
+	newcase := func(r objRef, reduced bool) {
+		add(reduced, opRenameObject("exact-newcase", r.Pkg+"."+r.Name, swapCase(r.Name)))
+		add(false, opRenameObject("othercase-newcase-back", r.Pkg+"."+swapCase(r.Name), r.Name))
+		if up := strings.ToUpper(r.Name); up != r.Name && up != swapCase(r.Name) {
+			add(false, opRenameObject("othercase-newcase-third", r.Pkg+"."+swapCase(r.Name), up))
+		}
+	}
+	newcase(rRef, true)
+	if R != sref {
+		newcase(parseObjRef(sref), false)
+	}
 
 	// omit
 	add(true, opOmit("exact", R))
@@ -431,6 +445,7 @@ func alphabet(seed mState) []op {
 	if !strings.EqualFold(f, last) {
 		add(false, opDuplicateObject("exact-omit-multi", sref, pkg+".CopyLess2", []string{last, swapCase(f)}))
 	}
+	add(false, opDuplicateObject("exact-newcase", sref, sOther, nil))
 	add(true, opDuplicateObject("othercase", sOther, pkg+".Copy", nil))
 	add(false, opDuplicateObject("absent", pkg+".Nope", pkg+".Copy", nil))
 	add(false, opDuplicateObject("otherpkg-target", sref, otherPkg+".Copy", nil))
@@ -443,6 +458,7 @@ func alphabet(seed mState) []op {
 	add(true, opRetypeObject("exact", sref, tString, nil))
 	add(true, opRetypeObject("exact-comments", sref, tArrayOf(tRef(rRef.Pkg, rRef.Name)), []string{"retyped"}))
 	add(true, opRetypeObject("othercase", sOther, tString, nil))
+	add(false, opRetypeObject("exact-comments-newcase", sref, tArrayOf(tRef(rRef.Pkg, rRef.Name)), []string{"RETYPED"}))
 	add(false, opRetypeObject("absent", pkg+".Nope", tString, []string{"retyped"}))
 	add(false, opRetypeObject("otherpkg", otherPkg+"."+S.Name, tString, nil))
 	add(false, opRetypeObject("nonstruct", pkg+"."+nName, tConstStr, nil))
@@ -481,6 +497,13 @@ func alphabet(seed mState) []op {
 	add(false, opFieldsSetDefault("nonstruct", fld(pkg+"."+nName, f), "dflt"))
 	add(false, opFieldsSetDefault("two-refs-one-field", fld(sref, last), "one", fld(sOther, last), "two"))
 	add(false, opFieldsSetDefault("exact-bool", fld(sref, last), "true"))
+	add(false, opFieldsSetDefault("exact-newcase", fld(sref, f), "DFLT"))
+	for _, fl := range S.Fields {
+		if d, ok := fl.Type.Default.(string); ok && swapCase(d) != d {
+			add(false, opFieldsSetDefault("exact-newcase-current", fld(sref, fl.Name), swapCase(d)))
+			break
+		}
+	}
 
 	// replace_reference
 	for i, t := range targets {
@@ -491,6 +514,7 @@ func alphabet(seed mState) []op {
 			add(false, opReplaceReference("exact-to-otherpkg", t, otherPkg+"."+S.Name))
 		}
 	}
+	add(false, opReplaceReference("exact-newcase", R, rRef.Pkg+"."+swapCase(rRef.Name)))
 	add(false, opReplaceReference("absent", pkg+".Nope", pkg+".Repl"))
 	add(false, opReplaceReference("otherpkg", otherPkg+"."+rRef.Name, pkg+".Repl"))
 
@@ -519,18 +543,27 @@ func alphabet(seed mState) []op {
 	add(false, opHintObject("absent", pkg+".Nope", hints))
 	add(false, opHintObject("otherpkg", otherPkg+"."+S.Name, hints))
 	add(false, opHintObject("nonstruct", pkg+"."+nName, `{hx: [a, b]}`))
+	add(false, opHintObject("exact-newcase", sref, `{h0: REPLACED, HX: true}`))
 
 	// schema_set_identifier
 	add(true, opSchemaSetIdentifier("exact", pkg, "Ident"))
 	add(false, opSchemaSetIdentifier("absent", absentPkg, "Ident"))
 	add(false, opSchemaSetIdentifier("otherpkg", otherPkg, "Other"))
 	add(true, opSchemaSetIdentifier("othercase", swapCase(pkg), "Ident"))
+	add(false, opSchemaSetIdentifier("exact-newcase", pkg, "iDENT"))
+	if id := seed.pkg(pkg).Metadata.Identifier; id != "" {
+		add(false, opSchemaSetIdentifier("exact-newcase-current", pkg, swapCase(id)))
+	}
 
 	// schema_set_entry_point
 	add(true, opSchemaSetEntryPoint("exact", pkg, S.Name))
 	add(false, opSchemaSetEntryPoint("exact-absent-object", pkg, "Nope"))
 	add(false, opSchemaSetEntryPoint("absent", absentPkg, S.Name))
 	add(false, opSchemaSetEntryPoint("otherpkg", otherPkg, S.Name))
+	add(false, opSchemaSetEntryPoint("exact-newcase", pkg, swapCase(S.Name)))
+	if ep := seed.pkg(pkg).EntryPoint; ep != "" && ep != S.Name {
+		add(false, opSchemaSetEntryPoint("exact-newcase-current", pkg, swapCase(ep)))
+	}
 
 	// list-valued parameters naming several targets at once
 	for _, o := range listOps(objs) {
@@ -541,6 +574,8 @@ func alphabet(seed mState) []op {
 	add(true, opPrefix("all", "Pre"))
 	add(false, opPrefix("empty", ""))
 	add(true, opAppendComment("note"))
+	add(false, opAppendComment("NOTE"))
+	add(false, opPrefix("all-newcase", "pRE"))
 
 	// drop duplicates (a seed may make two variants coincide)
 	seen := map[string]bool{}
